@@ -2226,3 +2226,297 @@ pub fn stack_overaligned(ctx: &mut Ctx) {
     run::<P64, 512>(&mut sp, "P64");
     run::<P64, 600>(&mut sp, "P64");
 }
+
+// ---------------------------------------------------------------------------------------------
+// A growable user backend whose fresh storage is not empty (room for two elements from the start): clones, empty clones,
+// growth past the initial room, lazy clones into it.
+
+pub fn prealloc_backend(ctx: &mut Ctx) {
+    use crate::guardmem::{GuardPre2, PRE};
+    let mut sp = Sp::new(ctx, "prealloc-backend", "GuardPre2".into());
+    sp.ctx.ordinal = 0;
+    type Tr = dyn Cloneable;
+    fn run<T: Elem>(sp: &mut Sp) {
+        for n in [0usize, 1, 2, 3, 5, 9] {
+            for growth in [hvcore::guard::Growth::Exact, hvcore::guard::Growth::Double] {
+                if !sp.take() {
+                    continue;
+                }
+                reg::reset();
+                let opsig = "clone/clone_empty/grow";
+                let desc = format!("{}:GuardPre2({growth:?})|len={n}", T::NAME);
+                let mask = if T::ID_BITS == 0 { 0 } else { (1u64 << T::ID_BITS.min(32)) - 1 };
+                let r = guarded(|| -> Result<(), (&'static str, String)> {
+                    let b = GuardPre2(GuardMem { growth });
+                    let mut v: AnyVec<Tr, GuardPre2> = AnyVec::new_in::<T>(b);
+                    if v.capacity() != PRE && size_of::<T>() != 0 {
+                        return Err(("capacity", format!("a fresh vector on a backend that starts with room for {PRE} reports capacity {}", v.capacity())));
+                    }
+                    let want: Vec<Id> = (1..=n as u64).map(|i| i & mask).collect();
+                    for i in &want {
+                        v.push(AnyValueWrapper::new(T::make(*i)));
+                        if v.len() > v.capacity() {
+                            return Err(("len>cap", format!("len {} > capacity {} after a push", v.len(), v.capacity())));
+                        }
+                    }
+                    let same = |x: &AnyVec<Tr, GuardPre2>, w: &[Id], what: &str| match snap_ids::<T, _, _>(x) {
+                        Ok(ids) if ids == w => Ok(()),
+                        other => Err(("model", format!("{what}: {other:?}, expected {w:?}"))),
+                    };
+                    same(&v, &want, "after the pushes")?;
+                    let _ = reg::take_clone_log();
+                    let c = v.clone();
+                    if c.len() > c.capacity() {
+                        return Err(("len>cap", format!("the clone has len {} > capacity {}", c.len(), c.capacity())));
+                    }
+                    same(&c, &want, "the clone")?;
+                    let mut log: Vec<Id> = reg::take_clone_log().into_iter().map(|(_, i)| i).collect();
+                    let mut w2 = want.clone();
+                    log.sort();
+                    w2.sort();
+                    if log != w2 {
+                        return Err(("clone-count", format!("clone() made the Clone::clone calls {log:?}, expected {w2:?}")));
+                    }
+                    // an empty clone starts with the backend's initial room, and grows past it
+                    let mut e = v.clone_empty();
+                    if e.len() != 0 {
+                        return Err(("model", format!("clone_empty() has len {}", e.len())));
+                    }
+                    for j in 0..n {
+                        e.push(v.at(j).lazy_clone());
+                        if e.len() > e.capacity() {
+                            return Err(("len>cap", format!("len {} > capacity {} while filling the empty clone", e.len(), e.capacity())));
+                        }
+                    }
+                    same(&e, &want, "the empty clone filled with lazy clones")?;
+                    // a heap vector cloned into this backend
+                    #[cfg(feature = "alloc")]
+                    {
+                        let mut h: AnyVec<Tr, any_vec::mem::Heap> = AnyVec::new::<T>();
+                        for i in &want {
+                            h.push(AnyValueWrapper::new(T::make(*i)));
+                        }
+                        let mut g = h.clone_empty_in(GuardPre2(GuardMem { growth }));
+                        for j in 0..n {
+                            g.insert(0, h.at(j).lazy_clone());
+                        }
+                        let rev: Vec<Id> = want.iter().rev().copied().collect();
+                        same(&g, &rev, "clone_empty_in(this backend) filled in reverse")?;
+                        let gg = g.clone();
+                        same(&gg, &rev, "its clone")?;
+                    }
+                    drop(c);
+                    drop(e);
+                    same(&v, &want, "the original after its clones are gone")?;
+                    drop(v);
+                    if T::TRACKED && reg::live_total(T::TAG) != 0 {
+                        return Err(("leak", format!("{} instances alive after everything was dropped", reg::live_total(T::TAG))));
+                    }
+                    Ok(())
+                });
+                match r {
+                    Ok(Ok(())) => {}
+                    Ok(Err((kind, m))) => sp.viol(kind, opsig, m, &desc),
+                    Err(m) => sp.viol("model", opsig, format!("panicked: {m}"), &desc),
+                }
+                hvcore::guard::scan();
+                sp.drain_reg(opsig, &desc);
+                sp.ctx.stats.bump("prealloc_backend_cases", 1);
+                sp.done(&desc, true, opsig);
+            }
+        }
+    }
+    run::<W8d>(&mut sp);
+    run::<U1d>(&mut sp);
+    run::<S24d>(&mut sp);
+    run::<L160d>(&mut sp);
+    run::<Z0d>(&mut sp);
+}
+
+// ---------------------------------------------------------------------------------------------
+// C17 / C18: raw parts with a stateful user builder over the heap storage, and hand-built parts for a vector that owns nothing
+
+#[cfg(feature = "alloc")]
+mod statefulheap {
+    use any_vec::mem::{Heap, MemBuilder};
+    use std::alloc::Layout;
+    use std::cell::Cell;
+    thread_local! {
+        pub static LIVE: Cell<i64> = Cell::new(0);
+        pub static CLONES: Cell<u64> = Cell::new(0);
+        pub static NEXT: Cell<u32> = Cell::new(1);
+    }
+    /// A builder with identity and a destructor, producing the library's own heap storage.
+    pub struct TaggedHeap {
+        pub id: u32,
+    }
+    impl TaggedHeap {
+        pub fn new() -> Self {
+            LIVE.with(|l| l.set(l.get() + 1));
+            TaggedHeap { id: NEXT.with(|n| { let v = n.get(); n.set(v + 1); v }) }
+        }
+    }
+    impl Clone for TaggedHeap {
+        fn clone(&self) -> Self {
+            CLONES.with(|c| c.set(c.get() + 1));
+            TaggedHeap::new()
+        }
+    }
+    impl Drop for TaggedHeap {
+        fn drop(&mut self) {
+            LIVE.with(|l| l.set(l.get() - 1));
+        }
+    }
+    impl MemBuilder for TaggedHeap {
+        type Mem = <Heap as MemBuilder>::Mem;
+        fn build(&mut self, element_layout: Layout) -> Self::Mem {
+            Heap.build(element_layout)
+        }
+    }
+}
+
+#[cfg(feature = "alloc")]
+pub fn c17_builders(ctx: &mut Ctx) {
+    use any_vec::mem::Heap;
+    use any_vec::RawParts;
+    use statefulheap::*;
+    if ctx.tool_mode && cfg!(miri) {
+        return;
+    }
+    let mut sp = Sp::new(ctx, "rawparts-builders", "TaggedHeap".into());
+    sp.ctx.ordinal = 0;
+    monalloc::set_mode(monalloc::MODE_GUARD);
+    let _ = monalloc::drain_events();
+    fn stateful<T: Elem>(sp: &mut Sp) {
+        for times in 1..=3u32 {
+            if !sp.take() {
+                continue;
+            }
+            reg::reset();
+            let opsig = "raw_round_trip(stateful builder)";
+            let desc = format!("{}:TaggedHeap|round trip x{times}", T::NAME);
+            let (live0, clones0) = (LIVE.with(|l| l.get()), CLONES.with(|c| c.get()));
+            let before = monalloc::stats().live;
+            monalloc::window_open();
+            let r = guarded(|| -> Result<(), String> {
+                let mask = if T::ID_BITS == 0 { 0 } else { (1u64 << T::ID_BITS.min(32)) - 1 };
+                let b = TaggedHeap::new();
+                let id = b.id;
+                let mut v: AnyVec<dyn TNone, TaggedHeap> = AnyVec::new_in::<T>(b);
+                for i in 1..=4u64 {
+                    v.push(AnyValueWrapper::new(T::make(i & mask)));
+                }
+                for _ in 0..times {
+                    let parts = v.into_raw_parts();
+                    if parts.mem_builder.id != id {
+                        return Err(format!("RawParts.mem_builder is builder #{}, the vector was built with #{id}", parts.mem_builder.id));
+                    }
+                    if LIVE.with(|l| l.get()) != live0 + 1 {
+                        return Err(format!("{} builders alive while the vector is decomposed (expected exactly its own)", LIVE.with(|l| l.get()) - live0));
+                    }
+                    v = unsafe { AnyVec::from_raw_parts(parts) };
+                }
+                match snap_ids::<T, _, _>(&v) {
+                    Ok(ids) if ids == (1..=4u64).map(|i| i & mask).collect::<Vec<_>>() => {}
+                    other => return Err(format!("rebuilt vector holds {other:?}")),
+                }
+                drop(v);
+                Ok(())
+            });
+            monalloc::window_reset();
+            let (live1, clones1) = (LIVE.with(|l| l.get()), CLONES.with(|c| c.get()));
+            match r {
+                Ok(Ok(())) => {
+                    if live1 != live0 {
+                        sp.viol("rawparts", opsig, format!("{} builder(s) never dropped after {times} round trip(s)", live1 - live0), &desc);
+                    }
+                    if clones1 != clones0 {
+                        sp.viol("rawparts", opsig, format!("the builder was cloned {} time(s) by into_raw_parts / from_raw_parts", clones1 - clones0), &desc);
+                    }
+                }
+                Ok(Err(m)) => sp.viol("rawparts", opsig, m, &desc),
+                Err(m) => sp.viol("rawparts", opsig, format!("panicked: {m}"), &desc),
+            }
+            sp.drain_alloc(opsig, &desc);
+            if monalloc::stats().live != before {
+                sp.viol("alloc-leak", opsig, format!("{} heap block(s) left allocated", monalloc::stats().live as i64 - before as i64), &desc);
+            }
+            sp.drain_reg(opsig, &desc);
+            sp.ctx.stats.bump("raw_round_trips_checked", times as u64);
+            sp.done(&desc, true, opsig);
+        }
+    }
+    fn handbuilt<T: Elem>(sp: &mut Sp) {
+        // the parts of an Empty-backed prototype re-targeted to the heap backend: capacity 0, nothing owned, any handle value
+        for (hname, handle) in [("dangling::<u8>", std::ptr::NonNull::<u8>::dangling()), ("dangling::<u64>", std::ptr::NonNull::<u64>::dangling().cast::<u8>()), ("dangling::<T>", std::ptr::NonNull::<T>::dangling().cast::<u8>())] {
+            if !sp.take() {
+                continue;
+            }
+            reg::reset();
+            let opsig = "from_raw_parts(hand-built, capacity 0)";
+            let desc = format!("{}:Heap|parts of an Empty vector with mem_handle = {hname}", T::NAME);
+            let before = monalloc::stats();
+            monalloc::window_open();
+            let r = guarded(|| -> Result<(), String> {
+                let proto: AnyVec<dyn TNone, Empty> = AnyVec::new_in::<T>(Empty);
+                let p = proto.into_raw_parts();
+                let parts: RawParts<Heap> = RawParts {
+                    mem_builder: Heap,
+                    mem_handle: handle,
+                    capacity: 0,
+                    len: 0,
+                    element_layout: p.element_layout,
+                    element_typeid: p.element_typeid,
+                    element_drop: p.element_drop,
+                    element_clone: p.element_clone,
+                };
+                let v: AnyVec<dyn TNone, Heap> = unsafe { AnyVec::from_raw_parts(parts) };
+                if v.len() != 0 || v.capacity() != 0 || v.element_typeid() != TypeId::of::<T>() {
+                    return Err(format!("the rebuilt vector reports len {} capacity {}", v.len(), v.capacity()));
+                }
+                // dropped while it owns nothing: the allocator must not be called
+                drop(v);
+                // and one that is used first
+                let proto: AnyVec<dyn TNone, Empty> = AnyVec::new_in::<T>(Empty);
+                let p = proto.into_raw_parts();
+                let parts: RawParts<Heap> = RawParts { mem_builder: Heap, mem_handle: handle, capacity: 0, len: 0, element_layout: p.element_layout, element_typeid: p.element_typeid, element_drop: p.element_drop, element_clone: p.element_clone };
+                let mut v: AnyVec<dyn TNone, Heap> = unsafe { AnyVec::from_raw_parts(parts) };
+                let mask = if T::ID_BITS == 0 { 0 } else { (1u64 << T::ID_BITS.min(32)) - 1 };
+                v.push(AnyValueWrapper::new(T::make(1 & mask)));
+                v.push(AnyValueWrapper::new(T::make(2 & mask)));
+                match snap_ids::<T, _, _>(&v) {
+                    Ok(ids) if ids == vec![1 & mask, 2 & mask] => {}
+                    other => return Err(format!("the rebuilt vector holds {other:?} after two pushes")),
+                }
+                v.clear();
+                v.shrink_to_fit();
+                drop(v);
+                Ok(())
+            });
+            monalloc::window_reset();
+            match r {
+                Ok(Ok(())) => {}
+                Ok(Err(m)) => sp.viol("rawparts", opsig, m, &desc),
+                Err(m) => sp.viol("rawparts", opsig, format!("panicked: {m}"), &desc),
+            }
+            sp.drain_alloc(opsig, &desc);
+            let after = monalloc::stats();
+            if after.live != before.live {
+                sp.viol("alloc-leak", opsig, format!("{} heap block(s) left allocated", after.live as i64 - before.live as i64), &desc);
+            }
+            sp.drain_reg(opsig, &desc);
+            sp.done(&desc, true, opsig);
+        }
+    }
+    stateful::<W8d>(&mut sp);
+    stateful::<S24d>(&mut sp);
+    stateful::<Z0d>(&mut sp);
+    stateful::<A32d>(&mut sp);
+    handbuilt::<W8d>(&mut sp);
+    handbuilt::<U1d>(&mut sp);
+    handbuilt::<A32d>(&mut sp);
+    handbuilt::<Z0d>(&mut sp);
+    monalloc::set_mode(monalloc::MODE_OFF);
+}
+#[cfg(not(feature = "alloc"))]
+pub fn c17_builders(_ctx: &mut Ctx) {}
